@@ -50,6 +50,27 @@ fn kind_str(k: &ast::ResolvedItemKind) -> &'static str {
 
 static SCRATCH_NONCE: AtomicU64 = AtomicU64::new(0);
 
+/// Set when the library does not go through the disk seam (H2) any more - e.g. after a
+/// refactoring of `add_file` to `std::fs::read_to_string`. Every load then uses real files in a
+/// scratch directory (the faults a real file system can produce), instead of judging the
+/// library by a simulated disk it never consults.
+pub static FORCE_PASSTHROUGH: std::sync::atomic::AtomicBool = std::sync::atomic::AtomicBool::new(false);
+
+/// Does `add_file` consult the simulated disk?
+pub fn probe_disk_seam() -> bool {
+    let path = PathBuf::from("seam-probe/does-not-exist-on-the-real-disk.aidl");
+    let log = exec::install_disk(
+        path.clone(),
+        Some(b"package p; interface I {}".to_vec()),
+        crate::exec::FaultPlan::default(),
+    );
+    let mut p = P::new();
+    let _ = catch_unwind(AssertUnwindSafe(|| p.add_file(&path)));
+    exec::uninstall_disk();
+    let opened = log.lock().unwrap().opened;
+    opened
+}
+
 struct World<'a> {
     scn: &'a HistScenario,
     prop: Prop,
@@ -247,7 +268,8 @@ pub fn run(prop: Prop, s: &HistScenario) -> RunOut {
     let passthrough = s
         .steps
         .iter()
-        .any(|st| matches!(&st.op, Op::AddFile { passthrough: true, .. }));
+        .any(|st| matches!(&st.op, Op::AddFile { passthrough: true, .. }))
+        || (FORCE_PASSTHROUGH.load(Ordering::SeqCst) && s.steps.iter().any(|st| matches!(&st.op, Op::AddFile { .. } | Op::DiskWrite { .. })));
     let scratch = if passthrough {
         let dir = format!(
             "{}/.scratch/{}-{}",
@@ -479,7 +501,41 @@ fn run_inner(w: &mut World, s: &HistScenario) -> RunOut {
                 let plan2 = plan.clone();
                 let bytes = on_disk.as_ref().map(|d| d.0.clone());
                 let arg = *arg;
-                let pt = *passthrough;
+                let forced = FORCE_PASSTHROUGH.load(Ordering::SeqCst);
+                let pt = *passthrough || forced;
+                // pass-through: the plan is applied to the real file (what a real disk can do)
+                let mut pt_eff: Option<Vec<u8>> = None;
+                if pt {
+                    let slot_file = match &w.scratch {
+                        Some(dir) => format!("{dir}/{}", slot.trim_start_matches('/')),
+                        None => String::new(),
+                    };
+                    if let Some((b, _, _)) = &on_disk {
+                        if plan.open_error.is_some() {
+                            let _ = std::fs::remove_file(&slot_file);
+                        } else {
+                            let mut eff = b.clone();
+                            if let Some(t) = plan.truncate_at {
+                                if t < eff.len() {
+                                    eff.truncate(t);
+                                    w.count("fault_truncated_fired");
+                                    fault_name = "truncated".to_owned();
+                                }
+                            }
+                            if let Some((i, m)) = plan.corrupt {
+                                if i < eff.len() && m != 0 {
+                                    eff[i] ^= m;
+                                    w.count("fault_flipped_byte_fired");
+                                    fault_name = "flipped_byte".to_owned();
+                                }
+                            }
+                            if eff != *b {
+                                let _ = std::fs::write(&slot_file, &eff);
+                            }
+                            pt_eff = Some(eff);
+                        }
+                    }
+                }
                 let real2 = real.clone();
                 let (p, res, log) = callers.exec(st.caller, move || {
                     policy.install(step_no);
@@ -590,8 +646,13 @@ fn run_inner(w: &mut World, s: &HistScenario) -> RunOut {
                     None => {
                         // pass-through: the real file system decides; the harness wrote the bytes
                         w.count("passthrough_loads");
-                        match &on_disk {
-                            Some((b, _, _)) => {
+                        // put the file back as the model has it
+                        if let (Some(dir), Some((b, _, _))) = (&w.scratch, &on_disk) {
+                            let slot_file = format!("{dir}/{}", slot.trim_start_matches('/'));
+                            let _ = std::fs::write(&slot_file, b);
+                        }
+                        match &pt_eff {
+                            Some(b) => {
                                 let utf8 = std::str::from_utf8(b).is_ok();
                                 if !utf8 {
                                     w.count("fault_invalid_utf8_fired");
@@ -600,8 +661,13 @@ fn run_inner(w: &mut World, s: &HistScenario) -> RunOut {
                                 (Some(utf8), b.clone())
                             }
                             None => {
-                                w.count("fault_missing_file_fired");
-                                fault_name = "missing_file".to_owned();
+                                if on_disk.is_some() {
+                                    w.count("fault_open_error_not_found_fired");
+                                    fault_name = "open_error".to_owned();
+                                } else {
+                                    w.count("fault_missing_file_fired");
+                                    fault_name = "missing_file".to_owned();
+                                }
                                 (Some(false), Vec::new())
                             }
                         }
